@@ -12,10 +12,13 @@ use serde::{Deserialize, Serialize};
 use std::net::Ipv4Addr;
 
 pub fn workers() -> usize {
+    if let Some(n) = std::env::var("VCHECK_WORKERS").ok().and_then(|s| s.parse::<usize>().ok()) {
+        return n.max(1);
+    }
     std::thread::available_parallelism()
         .map(|n| n.get())
         .unwrap_or(4)
-        .min(16)
+        .min(8)
 }
 
 // ---------------------------------------------------------------------------------------------
